@@ -54,6 +54,8 @@ TARGETS = [
     ("tok_static_text", "cstree/src/syntax/token.rs", "SyntaxToken", None, "static_text"),
     ("tok_text_key", "cstree/src/syntax/token.rs", "SyntaxToken", None, "text_key"),
     ("nd_text_range", "cstree/src/syntax/node.rs", "SyntaxNode", None, "text_range"),
+    ("it_new", "cstree/src/syntax/iter.rs", "Iter", None, "new"),
+    ("it_next", "cstree/src/syntax/iter.rs", "Iter", "Iterator", "next"),
     ("n_clone", "cstree/src/syntax/node.rs", "SyntaxNode", "Clone", "clone"),
     ("n_drop", "cstree/src/syntax/node.rs", "SyntaxNode", "Drop", "drop"),
     ("n_try_write", "cstree/src/syntax/node.rs", "SyntaxNode", None, "try_write"),
